@@ -137,6 +137,17 @@ CLAIMED.update({
    design="§7 C13", technique="contract-based deductive verification (interface-method contracts, per-iteration postconditions, ghost event logs; SMT)"),
 })
 
+CLAIMED.update({
+ "C07": dict(
+   text="Zero-annotation deductive sweep over all call sites of CheckerContext.Warn / WarnFixable / WarnWithPos / WarnFixableWithPos in package checkers (96 sites): the node that "
+        "positions the diagnostic is a non-nil node of the analysed tree (never a node the checker built itself; astcopy copies keep positions) - pushed to the callers of warn helpers as "
+        "call-site preconditions; the format string is a compile-time constant with exactly one verb per argument (decided syntactically; this is what keeps source text from being interpreted "
+        "as a format and producing '%!d(MISSING)' artefacts); every formatted node argument is non-nil. Plus contracts: the rule-engine reports are forwarded with position and fix unchanged; "
+        "the comment-formatting fix covers exactly the comment with a non-inverted range; asDiag forwards position and edit (C08). 209 of 222 obligations proved and recorded in ledger/C07.proved; "
+        "new or changed call sites must discharge. Not covered: positions and ranges computed inside the rule engine; that Pos() of a tree node is a token start (theory ast-valid).",
+   design="§7 C07", technique="contract-based deductive verification, Warn-site sweep (call-site obligations; SMT + syntactic decisions on constant formats)"),
+})
+
 NA_REASON_PENDING = "check not built yet in this round (planned, DESIGN §7); not claimed until its obligations discharge"
 NOT_APPLICABLE = {
  "C11": "no contract within reach can state equality of Go-regexp match behaviour between a pattern and the string printed from a third-party parse tree (DESIGN §8)",
